@@ -25,4 +25,12 @@ theorem pureUtils_no_hidden_state :
     Gen.Utils.fact_globalWrites = [] ∧ Gen.Utils.fact_aliasAssign = [] ∧ Gen.Utils.fact_fixedArrays = [] ∧ Gen.Utils.fact_receiverWrites = ["BitList_SetBit:data", "BitList_grow:data", "ReedSolomonEncoder_getPolynomial:polynomes"] := by
   decide
 
+/-- The library routines these packages call are exactly the ones the models were written against (DESIGN §7, item 5):
+    a body that starts to use another routine — `math/bits.Div` instead of `big.Int.DivMod`, `hash/crc32`,
+    `bytes.TrimPrefix`, `strings.HasPrefix` — is outside what the model mirrors, whether or not an input shows it. -/
+theorem pureUtils_external_calls :
+    Gen.Root.fact_externalCalls = ["(image.Image).At", "(image.Image).Bounds", "(image.Image).ColorModel", "errors.New", "fmt.Errorf", "image.Rect", "math.Min"] ∧
+    Gen.Utils.fact_externalCalls = ["(*sync.Mutex).Lock", "(*sync.Mutex).Unlock", "image.Rect"] := by
+  decide
+
 end BV.Props.PureUtils
